@@ -61,6 +61,24 @@ class PathInfo:
         self._dec = out
         return out
 
+    def feasible(self):
+        seen = {}
+        for d in self.decisions():
+            if d[0] == "variant":
+                prev = seen.get(d[1])
+                cur = set(d[2])
+                if prev is not None:
+                    cur = prev & cur
+                    if not cur:
+                        return False
+                seen[d[1]] = cur
+            elif d[0] == "bool":
+                prev = seen.get(("b", d[1]))
+                if prev is not None and prev != d[2]:
+                    return False
+                seen[("b", d[1])] = d[2]
+        return True
+
     def cmp_facts(self):
         """Comparison facts established along the path, canonicalised: every
         (op, lhs, rhs) is present in both orientations and with negated tests
@@ -109,14 +127,20 @@ class PathInfo:
         return out
 
 
-def paths(P, b, start=0, stop=None, limit=20000, to_return_only=False):
+def paths(P, b, start=0, stop=None, limit=20000, to_return_only=False, prune=True):
+    """Acyclic paths as PathInfo.  With prune, paths that decide the discriminant of
+    the same value twice with disjoint variant sets (typically the drop-elaboration
+    re-tests after a match) are infeasible and skipped."""
     cfg = P.cfg(b)
     for path in cfg.paths(start, stop, limit):
         last = path[-1]
         if to_return_only:
             if isinstance(last, tuple) or b.term(last)["t"] != "return":
                 continue
-        yield PathInfo(P, b, path)
+        pi = PathInfo(P, b, path)
+        if prune and not pi.feasible():
+            continue
+        yield pi
 
 
 def variant_table(P, b, subject=None, enum_suffix=None):
